@@ -28,7 +28,7 @@ RULE = ('seeded worlds over every raw type x {no scaling, structural scale graph
         'scale kinds, segment shape); non-trivial = a non-empty and an empty result of the same channel were both '
         'checked')
 EXPECTED_PROBES = ['sensor:RTD', 'sensor:Thermocouple', 'sensor:Thermistor', 'sensor:Strain', 'float32-linear',
-                   'empty-window', 'zero-length-channel', 'file-chunk-without-channel', 'daqmx', 'string-chunk']
+                   'empty-window', 'zero-length-channel', 'file-chunk-without-channel', 'daqmx', 'string-chunk', 'memmap', 'truncated-final-chunk']
 
 
 def add_sensor(rng, spec, ctype, p, only_float=False):
@@ -67,6 +67,8 @@ def opts(tier):
     o.many_segments_p = 0.0
     o.nasty_names = 0.03
     o.props = False
+    o.short_last_p = 0.05
+    o.equal_shapes_p = 0.15
 
     def scaling(rng, spec, ctype):
         add_sensor(rng, spec, ctype, 0.35)
@@ -81,7 +83,13 @@ def generate(rng, tier):
         spec = daqmx_scaled_world(rng)
     if spec is None:
         spec, _w, _ = gen.gen_world(rng, opts(tier))
-    return {'spec': spec, 'raw_ts': rng.random() < 0.2, 'op_seed': rng.getrandbits(32)}
+    cut = None
+    w = build(spec)
+    last = w.segs[-1]
+    if last.end - last.data_pos > 1 and not spec['segments'][-1].get('short_last') and rng.random() < 0.12:
+        cut = rng.randint(last.data_pos + 1, last.end - 1)      # truncated final chunk: len() must still agree
+    return {'spec': spec, 'raw_ts': rng.random() < 0.2, 'op_seed': rng.getrandbits(32), 'memmap': rng.random() < 0.2,
+            'cut': cut}
 
 
 def same_dtype(dt, declared):
@@ -186,14 +194,30 @@ def monitor(tf, w, mode, raw_ts, rng, res):
             attempt('iteration element', first_iter, scalar=True)
         if mode == 'lazy':
             try:
+                total = 0
                 for k, ck in enumerate(c.data_chunks()):
-                    attempt('data_chunks()[%d][:]' % k, lambda: ck[:])
+                    total += len(ck)
+                    if k <= 6:
+                        attempt('data_chunks()[%d][:]' % k, lambda: ck[:])
                     if ch.type == 'str':
                         res.probe('string-chunk')
-                    if k > 6:
-                        break
+                res.compared += 1
+                if total != n:
+                    out.append(V('C14.length', '%s: the chunks of data_chunks() hold %d values, len(channel) is %d' % (lab, total, n),
+                                 path='data_chunks'))
             except Exception:
                 res.skipped_ops += 1
+        try:
+            with warnings.catch_warnings():
+                warnings.simplefilter('ignore')
+                with np.errstate(all='ignore'):
+                    cnt = sum(1 for _ in c)
+            res.compared += 1
+            if cnt != n:
+                out.append(V('C14.length', '%s: iteration yields %d values, len(channel) is %d' % (lab, cnt, n), path='iteration'))
+        except Exception:
+            res.skipped_ops += 1
+        if mode == 'lazy':
             g, cn = w.names[path]
             for k, chunk in enumerate(file_chunks[:6]):
                 try:
@@ -227,10 +251,15 @@ def execute(case):
             res.probe('daqmx')
     res.sig = [sorted(kinds, key=str), len(spec['segments'])]
     with store(record=False) as st_:
-        st_.put('w.tdms', w.data)
+        st_.put('w.tdms', w.data if case.get('cut') is None else w.data[:case['cut']])
+        if case.get('cut') is not None:
+            res.probe('truncated-final-chunk')
         try:
-            eager = lib.TdmsFile.read(st_.source('simstream', 'w.tdms'), raw_timestamps=case['raw_ts'])
-            lazy = lib.TdmsFile.open(st_.source('simstream', 'w.tdms'), raw_timestamps=case['raw_ts'])
+            kw = {'memmap_dir': st_.realdir()} if case.get('memmap') else {}
+            if kw:
+                res.probe('memmap')
+            eager = lib.TdmsFile.read(st_.source('simstream', 'w.tdms'), raw_timestamps=case['raw_ts'], **kw)
+            lazy = lib.TdmsFile.open(st_.source('simstream', 'w.tdms'), raw_timestamps=case['raw_ts'], **kw)
         except Exception as exc:
             res.skipped_ops += 1
             return res
